@@ -45,6 +45,12 @@ package core
 //@   loop 1 invariant labels: soff(hasLabelIdx) == 0 && len(hasLabelIdx) >= 0 &&
 //@       (forall j :: 0 <= j && j < len(hasLabelIdx) ==> 0 <= hasLabelIdx[j] && hasLabelIdx[j] < len(pipe))
 //@   loop 1 invariant range: rangeindex < len(pipe)
+// only a filter of the LEADING run may be turned into the lookup: between the start statement and a
+// remembered filter there are only filters (moving a filter across any other step - distinct, limit, a
+// move - would change the answers)
+//@   loop 1 invariant leading: !isDone ==> (forall j :: 1 <= j && j <= rangeindex ==> pipe[j] != nil && (dyn(pipe[j].Statement, "*gripql.GraphStatement_HasId") || dyn(pipe[j].Statement, "*gripql.GraphStatement_HasLabel") || dyn(pipe[j].Statement, "*gripql.GraphStatement_Has")))
+//@   loop 1 invariant idlead: forall p, j :: 0 <= p && p < len(hasIDIdx) && 1 <= j && j <= hasIDIdx[p] ==> pipe[j] != nil && (dyn(pipe[j].Statement, "*gripql.GraphStatement_HasId") || dyn(pipe[j].Statement, "*gripql.GraphStatement_HasLabel") || dyn(pipe[j].Statement, "*gripql.GraphStatement_Has"))
+//@   loop 1 invariant labellead: forall p, j :: 0 <= p && p < len(hasLabelIdx) && 1 <= j && j <= hasLabelIdx[p] ==> pipe[j] != nil && (dyn(pipe[j].Statement, "*gripql.GraphStatement_HasId") || dyn(pipe[j].Statement, "*gripql.GraphStatement_HasLabel") || dyn(pipe[j].Statement, "*gripql.GraphStatement_Has"))
 
 // ---- C01: stream processes --------------------------------------------------------
 // A goroutine body that reads `in` by blocking receive and writes `out` is a sequential
@@ -410,14 +416,15 @@ package core
 // decreasing count; the library sort is not modelled).
 //@ func (*aggregate).Process$2
 //@   vars a aChans out maxTerms tagg size outErr fieldTermCounts t val k terms term tcount n tc i j
-//@   property C19
+//@   property C19 C06
+//@   nopanic
 //@   option prelude=trav,json
 //@   option load=gdbi,gripql,jsonpath
 //@   let src = aChans[a.Name]
 //@   requires fresh: a != nil && aChans != nil && has(aChans, a.Name) && src != nil && out != nil && src != out && rd(src) == 0 && len(src) >= 0 && wr(out) == 0 && !closed(out)
 //@   requires arm: dyn(a.Aggregation, "*gripql.Aggregate_Term") && ptr(a.Aggregation, "*gripql.Aggregate_Term") != nil && ptr(a.Aggregation, "*gripql.Aggregate_Term").Term != nil
 //@   requires items: forall j :: 0 <= j && j < len(src) ==> src[j] != nil
-//@   loop 1 invariant pos: 0 <= rd(src) && rd(src) <= len(src) && wr(out) == 0 && !closed(out)
+//@   loop 1 invariant pos: 0 <= rd(src) && rd(src) <= len(src) && wr(out) == 0 && !closed(out) && fieldTermCounts != nil
 //@   loop 2 invariant quiet: wr(out) == 0 && !closed(out) && rd(src) == len(src)
 //@   loop 3 invariant sent: wr(out) == rangeindex + 1 && !closed(out) && rd(src) == len(src) && (size > 0 ==> rangeindex < size)
 //@   ensures drained: rd(src) == len(src)
